@@ -331,7 +331,7 @@ func init() {
 			"end-of-array adds rewritten as forward-order '-' appends, non-canonical index tokens, and pairs of these in sequence) applied to a, b and perturbations; whenever ReadPatchString and Patch both succeed the harness's RFC 6902 evaluation of the same text on the same document must succeed with an equal result; " +
 			"jd's own output on a must reproduce b; non-trivial = every case (non-empty expressible diff); distinct = distinct (a, b, patch text)",
 		Floors: map[string]int{"both_sides_evaluated(jd applied)": 20000, "agree": 20000, "own_output_reproduces_b": 5000, "jd_applied:drop-hunk": 500, "jd_applied:drop-context-tests": 500,
-			"jd_applied:change-test/remove-value": 200, "jd_applied:shift-indices": 200, "jd_applied:append-token": 200, "jd_applied:append-token-multi": 50, "jd_applied:compound": 200, "jd_applied:onto-predecessor-index": 200},
+			"jd_applied:change-test/remove-value": 200, "jd_applied:shift-indices": 200, "jd_applied:append-token": 200, "jd_applied:append-token-multi": 50, "jd_applied:compound": 200, "jd_applied:onto-predecessor-index": 200, "path_collision_pairs": 1000},
 		Assumptions: []string{
 			"jd erroring where the RFC evaluation succeeds is allowed (counted as jd_stricter_than_rfc); only 'more permissive or different' is a violation",
 			"same RFC 6902 reading of root replacement as C09 (DESIGN 5.9)",
@@ -373,5 +373,31 @@ func init() {
 			},
 		})
 	}
+	// keys that read like a rendering of a neighbouring path ("a b", "a/b", "a,b", "f 1" next to a.b / f[1]):
+	// any shortcut that compares paths through a printed form confuses them
+	p.Strata = append(p.Strata, mon.Stratum{
+		Name: "path-rendering-collisions",
+		N:    qt(3000, 60000),
+		Run: func(c *mon.Ctx, i int) {
+			r := c.R
+			t1, t2 := gen.Pick(r, []string{"a", "b", "f", "x"}), gen.Pick(r, []string{"a", "b", "k", "y"})
+			sep := gen.Pick(r, []string{" ", "/", ",", ".", "~1", "~"})
+			v, w := gen.Scalar(r, gen.PTiny), gen.Scalar(r, gen.PTiny)
+			var a, b any
+			switch i % 3 {
+			case 0:
+				a = map[string]any{t1: map[string]any{t2: v}}
+				b = map[string]any{t1: map[string]any{}, t1 + sep + t2: w}
+			case 1:
+				a = map[string]any{t1: []any{1.0, v}, "z": 1.0}
+				b = map[string]any{t1: []any{1.0}, t1 + sep + "1": w, "z": 1.0}
+			default:
+				a = map[string]any{t1: map[string]any{t2: v}, t1 + sep + t2: v}
+				b = map[string]any{t1: map[string]any{t2: w}, t1 + sep + t2: w}
+			}
+			c.Feature("path_collision_pairs")
+			c10Case(c, ref.ToJSON(a), ref.ToJSON(b), gen.PTiny, []int{0, 0, 1, 3}[i%4])
+		},
+	})
 	mon.Register(p)
 }
